@@ -182,6 +182,153 @@ def g3_world_construction(prog):
     return r
 
 
+def g4_tabulate(prog):
+    """Small-scope decision of the column-length check, independent of how the recursion over the column list is
+    written: the Length trait is unfolded over lists of 1..3 columns (calls on the j-th tail are walked in the cons impl,
+    on the end of the list in the Null impl), and the path conditions of `check_len` and of the safe `Batch::new` are
+    evaluated for every assignment of lengths 0..2 to the columns. `check_len` must be true exactly when all columns
+    have one length; `Batch::new` must return (not panic) exactly then, with `len` = that length.
+    -> {'check_len': (verdict, detail), 'new': (verdict, detail)}, verdict in 'ok' | 'bad' | 'unknown'"""
+    import itertools
+    S = pathsem.strip_refs
+    out = {'check_len': ('unknown', 'not found'), 'new': ('unknown', 'not found')}
+    tps = [t for t in prog.traits if t.endswith('entities::sealed::length::Length')]
+    if len(tps) != 1:
+        return out
+    TP = tps[0]
+    cons = [i for i in prog.facts['impls'] if i['trait'] and i['trait']['path'] == TP and i['self'].get('k') == 'tuple']
+    null = [i for i in prog.facts['impls'] if i['trait'] and i['trait']['path'] == TP and i['self'].get('k') == 'adt' and i['self']['path'].endswith('::Null')]
+    if len(cons) != 1 or len(null) != 1:
+        return out
+    cons, null = cons[0], null[0]
+
+    def col_of(t):
+        t = S(t)
+        while isinstance(t, tuple) and t and t[0] in ('d', 'r'):
+            t = S(t[1])
+        if not (isinstance(t, tuple) and t[0] == 'f' and t[3] == 'tuple' and t[2] == 0):
+            return None
+        t = S(t[1])
+        n = 0
+        for _ in range(20):
+            while isinstance(t, tuple) and t and t[0] in ('d', 'r'):
+                t = S(t[1])
+            if isinstance(t, tuple) and t[0] == 'f' and t[3] == 'tuple' and t[2] == 1:
+                n += 1
+                t = S(t[1])
+                continue
+            return n if isinstance(t, tuple) and t and t[0] == 'p' else None
+        return None
+
+    def feasible(p, leaf):
+        """-> True | False | None (a condition could not be evaluated)"""
+        unk = False
+        for a_, v in p.conds:
+            if isinstance(v, tuple):
+                continue
+            val = pathsem.evaluate(a_, leaf)
+            if val is None:
+                unk = True
+                continue
+            if bool(val) != bool(v):
+                return False
+        return None if unk else True
+
+    def leaf_for(lens):
+        def leaf(t):
+            if isinstance(t, tuple) and t[0] == 'call' and t[1].rsplit('::', 1)[-1] in ('len', 'component_len') and t[2]:
+                c = col_of(t[2][0])
+                if c is not None and c < len(lens):
+                    return lens[c]
+            return None
+        return leaf
+    # ---- check_len
+    verdict, detail = 'ok', None
+    f0 = prog.impl_method_or_default(null, 'check_len')
+    f = prog.impl_method_or_default(cons, 'check_len')
+    if f is None or f0 is None:
+        verdict, detail = 'unknown', 'check_len not found'
+    else:
+        E0 = pathsem.analyse(prog, f0, unfold={'trait': TP, 'k': 0, 'cons': cons, 'null': null})
+        if E0.truncated or [p.ret for p in E0.paths if p.ended == 'return'] != [pathsem.TRUE]:
+            verdict, detail = 'unknown', 'check_len of the empty list'
+        for k in (1, 2, 3):
+            if verdict != 'ok':
+                break
+            E = pathsem.analyse(prog, f, unfold={'trait': TP, 'k': k, 'cons': cons, 'null': null}, max_paths=20000)
+            rets = [p for p in E.paths if p.ended == 'return']
+            if E.truncated or not rets or any(p.ret not in (pathsem.TRUE, pathsem.FALSE) for p in rets):
+                verdict, detail = 'unknown', 'check_len over %d columns not extractable' % k
+                break
+            for lens in itertools.product((0, 1, 2), repeat=k):
+                got = set()
+                for p in rets:
+                    fz = feasible(p, leaf_for(lens))
+                    if fz is None:
+                        verdict, detail = 'unknown', 'a condition of check_len over %d columns could not be evaluated' % k
+                        break
+                    if fz:
+                        got.add(p.ret)
+                if verdict != 'ok':
+                    break
+                want = pathsem.TRUE if len(set(lens)) <= 1 else pathsem.FALSE
+                if got != {want}:
+                    verdict, detail = 'bad', 'columns of lengths %s: check_len answers %s' % (list(lens), sorted('true' if x == pathsem.TRUE else 'false' for x in got) or 'nothing')
+                    break
+    out['check_len'] = (verdict, detail)
+    # ---- Batch::new
+    fs = [g for g in prog.fns.values() if g.path.startswith('entities::Batch') and g.name == 'new' and g.kind == 'AssocFn' and not g.d.get('unsafe')]
+    adt = prog.adts.get('entities::Batch')
+    if len(fs) == 1 and adt:
+        g = fs[0]
+        names = [x['name'] for x in adt['variants'][0]['fields']]
+        li, ei = names.index('len'), names.index('entities')
+        verdict, detail = 'ok', None
+        for k in (1, 2, 3):
+            if verdict != 'ok':
+                break
+            E = pathsem.analyse(prog, g, unfold={'trait': TP, 'k': k, 'cons': cons, 'null': null}, max_paths=20000, inline=lambda c: c.path.startswith('entities::Batch') and c.name == 'new_unchecked')
+            if E.truncated or not E.paths:
+                verdict, detail = 'unknown', 'Batch::new over %d columns not extractable' % k
+                break
+            rets = [p for p in E.paths if p.ended == 'return']
+            for lens in itertools.product((0, 1, 2), repeat=k):
+                leaf = leaf_for(lens)
+                live = []
+                for p in rets:
+                    fz = feasible(p, leaf)
+                    if fz is None:
+                        verdict, detail = 'unknown', 'a condition of Batch::new over %d columns could not be evaluated' % k
+                        break
+                    if fz:
+                        live.append(p)
+                if verdict != 'ok':
+                    break
+                equal = len(set(lens)) <= 1
+                if live and not equal:
+                    verdict, detail = 'bad', 'columns of lengths %s are accepted by Batch::new: ragged columns reach extend' % list(lens)
+                    break
+                if equal and not live:
+                    verdict, detail = 'bad', 'columns of equal lengths %s are rejected by Batch::new' % list(lens)
+                    break
+                for p in live:
+                    b = S(p.ret)
+                    if not (isinstance(b, tuple) and b[0] == 'agg' and b[1] == 'entities::Batch'):
+                        verdict, detail = 'unknown', 'cannot see the Batch returned'
+                        break
+                    lv = pathsem.evaluate(b[4][li], leaf)
+                    if lv is None:
+                        verdict, detail = 'unknown', 'cannot evaluate Batch.len (%s)' % pathsem.tstr(b[4][li])[:60]
+                        break
+                    if lv != lens[0] or S(b[4][ei]) != ('p', 1, g.body.local_name(1) or ''):
+                        verdict, detail = 'bad', 'columns of lengths %s: Batch.len = %s' % (list(lens), lv)
+                        break
+                if verdict != 'ok':
+                    break
+        out['new'] = (verdict, detail)
+    return out
+
+
 @rule('G4', props=['C18', 'C01', 'C05'], floor=4, configs=('all', 'default'))
 def g4_batch_construction(prog):
     """Batch values are only built by the unsafe new_unchecked (len = entities.component_len()); the safe
@@ -209,9 +356,19 @@ def g4_batch_construction(prog):
             n_ = S(a_[2][1])
             return isinstance(n_, tuple) and n_[0] == 'call' and n_[1].endswith('::component_len') and S(S(n_[2][0])) == S(ent)
         return False
+    tab = g4_tabulate(prog)
+    safe_new = [g for g in prog.fns.values() if g.path.startswith('entities::Batch') and g.name == 'new' and g.kind == 'AssocFn' and not g.d.get('unsafe')]
+    if tab['new'][0] in ('ok', 'bad'):
+        r.inst('Batch::new evaluated over column lists of 1..3 columns, lengths 0..2: %s' % (tab['new'][1] or 'accepts exactly the equal-length lists, with len = that length'))
+    if tab['new'][0] == 'bad' and safe_new:
+        r.viol('G4', safe_new[0].path + '/accepts-ragged', safe_new[0].loc(), tab['new'][1])
+    if tab['check_len'][0] in ('ok', 'bad'):
+        r.inst('check_len evaluated over column lists of 0..3 columns, lengths 0..2: %s' % (tab['check_len'][1] or 'true exactly for the equal-length lists'))
     for fn in {fn.dp: fn for fn, b_, i_, s_ in aggs}.values():
         r.inst('Batch aggregate in %s' % fn.path)
         top = owner_fn(prog, fn) if fn.kind == 'Closure' else fn
+        if tab['new'][0] in ('ok', 'bad') and safe_new and top.dp == safe_new[0].dp:
+            continue            # decided above, by evaluation
         E = pathsem.analyse(prog, top)
         rets = [p for p in E.paths if p.ended == 'return']
         if E.truncated or not rets:
@@ -244,7 +401,9 @@ def g4_batch_construction(prog):
             continue
         b, t = sites[0]
         r.inst('new_unchecked called from %s' % f.path[:100])
-        if f.path.startswith('entities::Batch') and not f.d.get('unsafe'):
+        if f.path.startswith('entities::Batch') and not f.d.get('unsafe') and tab['new'][0] in ('ok', 'bad'):
+            pass                # the safe constructor's admission is decided by evaluation (above)
+        elif f.path.startswith('entities::Batch') and not f.d.get('unsafe'):
             E = pathsem.analyse(prog, f)
             bad = E.truncated
             for p in E.paths:
@@ -262,8 +421,14 @@ def g4_batch_construction(prog):
                 r.viol('G4', f.path + '/extend-builds-batch', f.loc(t['ln']), 'World::extend builds an unchecked Batch from something other than the canonical form of the checked batch')
         else:
             r.viol('G4', f.path + '/new-unchecked-caller', f.loc(t['ln']), 'unexpected in-crate caller of Batch::new_unchecked')
-    # check_len / check_len_against truth tables
+    # check_len / check_len_against truth tables (the inductive form of the clause; used when the small-scope
+    # evaluation above could not be completed)
+    if tab['check_len'][0] == 'bad':
+        cl = [g for g in prog.fns.values() if g.name == 'check_len' and 'length::Length' in g.path]
+        r.viol('G4', 'length/check_len/wrong-table', cl[0].loc() if cl else '-', 'check_len does not decide "all columns have one length": %s' % tab['check_len'][1])
     for imp in prog.facts['impls']:
+        if tab['check_len'][0] in ('ok', 'bad'):
+            break
         if imp['trait'] and imp['trait']['path'].endswith('entities::sealed::length::Length') and imp['self'].get('k') == 'tuple':
             ms = {f.name: f for f in prog.impl_methods(imp)}
             tp = imp['trait']['path']
